@@ -27,6 +27,7 @@ class Run:
         self.notes = []
         self.functions_analysed = set()
         self.clauses = []
+        self.extra = {}
 
     def clause(self, text):
         self.clauses.append(text)
@@ -94,7 +95,7 @@ def finish(run, t0, seed=0, explanation='', assumptions=()):
                 continue
             nviol += 1
             os.makedirs(replay_dir, exist_ok=True)
-            rp = os.path.join(replay_dir, '%s-%d.json' % (prop, nviol))
+            rp = os.path.join(replay_dir, '%s%s-%d.json' % ('mutant-' if os.environ.get('VERIF_NO_EVIDENCE') else '', prop, nviol))
             json.dump({'property': prop, 'finding': inst.as_dict(),
                        'rederive': './check %s --replay %s' % (prop, rp)}, open(rp, 'w'), indent=1)
             viol_lines.append('%s: [%s %s] %s :: %s' % (inst.loc, inst.rule, inst.instance, inst.construct, inst.msg))
@@ -134,6 +135,7 @@ def finish(run, t0, seed=0, explanation='', assumptions=()):
             'samples': samples or [{'note': 'no instances'}],
             'exhaustive': True,
             'notes': run.notes,
+            **run.extra,
         },
         'assumptions': list(assumptions) + [
             'clang 14 semantic analysis of the units with the build flags -std=gnu++14 -DNDEBUG',
@@ -142,8 +144,9 @@ def finish(run, t0, seed=0, explanation='', assumptions=()):
         'wall_s': round(time.time() - t0, 3),
         'violations': nviol,
     }
-    os.makedirs(os.path.join(VERIF, 'evidence'), exist_ok=True)
-    json.dump(ev, open(os.path.join(VERIF, 'evidence', prop + '.json'), 'w'), indent=1)
+    if not os.environ.get('VERIF_NO_EVIDENCE'):
+        os.makedirs(os.path.join(VERIF, 'evidence'), exist_ok=True)
+        json.dump(ev, open(os.path.join(VERIF, 'evidence', prop + '.json'), 'w'), indent=1)
     print('%s %s: %d rule instances over %d functions (%s); %d held, %d known findings, %d violations, %d unrecognised'
           % (prop, run.tier, total, len(run.functions_analysed), ', '.join('%s=%d' % kv for kv in per_rule.items()),
              held, len(set(printed_known)), nviol, len(unrec)))
